@@ -19,12 +19,16 @@ import numba as nb
 
 @nb.njit(cache=True)
 def arr_comb(n, k):
-    n = np.where((n < 0) | (n < k), 0, n)
+    invalid = (n < 0) | (n < k)
+    n = np.where(invalid, 0, n)
     prod = np.ones(n.shape, dtype=np.int64)
 
+    # NOTE: The symmetry C(n, k) = C(n, n - k) is used elementwise, otherwise the
+    # intermediate binomials may overflow even when the result is small.
+    steps = np.where(invalid, k, np.minimum(k, n - k))
+
     for i in range(k):
-        prod *= n - i
-        prod = prod // (i + 1)
+        prod = np.where(i < steps, prod * (n - i) // (i + 1), prod)
 
     return prod
 
